@@ -759,4 +759,19 @@ example : (2 : ℚ) * 2 + 0 * 0 + 0 * 0 ≠ 0 := by norm_num
 example : SqrtLaw (⟨0, 0, 0, Real.sqrt, id, id, id⟩ : Transc ℝ) :=
   fun x h => ⟨Real.sqrt_pos.mpr h, Real.mul_self_sqrt h.le⟩
 
+/-! ## compound assignments: `x op= y` leaves `x op y` in `x` -/
+theorem a3_compound_assign (a b : Aff3 α) :
+    @a3_imul α 𝔽 a b = @a3_mul α 𝔽 a b ∧ @a3_idiv α 𝔽 a b = @a3_div α 𝔽 a b := by
+  simp only [gen_simp, and_self]
+theorem l_compound_assign (a b : Lin3 α) (c d : Lin2 α) :
+    @l3_imul α 𝔽 a b = @l3_mul α 𝔽 a b ∧ @l3_idiv α 𝔽 a b = @l3_mul α 𝔽 a (@l3_rcp α 𝔽 b) ∧
+    @l2_imul α 𝔽 c d = @l2_mul α 𝔽 c d ∧ @l2_idiv α 𝔽 c d = @l2_mul α 𝔽 c (@l2_rcp α 𝔽 d) := by
+  simp only [gen_simp, and_self]
+theorem q_compound_assign (a b : Quat α) (s : α) :
+    @q_imul α 𝔽 a b = @q_mul α 𝔽 a b ∧ @q_idiv α 𝔽 a b = @q_mul α 𝔽 a (@q_rcp α 𝔽 b) ∧
+    @q_iadd α 𝔽 a b = @q_add α 𝔽 a b ∧ @q_isub α 𝔽 a b = @q_sub α 𝔽 a b ∧
+    @q_imuls α 𝔽 a s = @q_muls α 𝔽 a s ∧ @q_idivs α 𝔽 a s = @q_muls α 𝔽 a (1 / s) ∧
+    @q_iadds α 𝔽 a s = ⟨a.i, a.j, a.k, a.r + s⟩ ∧ @q_isubs α 𝔽 a s = ⟨a.i, a.j, a.k, a.r - s⟩ := by
+  simp only [gen_simp, ofFieldT_ofScientific, and_self, true_and, and_true]; norm_num
+
 end RkVerif.C06
